@@ -91,6 +91,11 @@ class SGen(object):
         return '*[' + r.choice(['@' + r.choice(g.attrs), r.choice(names), 'not(*)', 'text()']) + ']'
 
     # ---- instruction bodies ------------------------------------------------------------------
+    def use_sets(self):
+        """value of a use-attribute-sets attribute: one to three of the declared sets (a set may be named twice)"""
+        r = self.r
+        return ' '.join(r.choice(self.attribute_sets) for _ in range(r.choice([1, 1, 2, 3])))
+
     def body(self, depth, scope, in_element=False, ctx='node'):
         """sequence of instructions; scope: visible local variable types"""
         r = self.r
@@ -157,7 +162,7 @@ class SGen(object):
                 attrs += ' %s="%s"' % (an, r.choice([xesc(r.choice(gen_xml.VALUES)), avt(self.expr('str', scope, 1)), 'v' + avt(self.expr('num', scope, 1)) + 'w']))
             if self.attribute_sets and r.random() < 0.2:
                 self.f('use-attribute-sets')
-                attrs += ' xsl:use-attribute-sets="%s"' % r.choice(self.attribute_sets)
+                attrs += ' xsl:use-attribute-sets="%s"' % self.use_sets()
             return '<%s%s>%s</%s>' % (name, attrs, self.body(depth - 1, scope, in_element=True), name)
         if k < 0.44 and not leaf:
             self.f('element')
@@ -170,6 +175,9 @@ class SGen(object):
                 inner = self.body(depth - 1, scope, in_element=True)
                 return ('<xsl:choose><xsl:when test="self::*"><xsl:element name="{local-name()}">%s</xsl:element></xsl:when>'
                         '<xsl:otherwise><e0>%s</e0></xsl:otherwise></xsl:choose>' % (inner, inner))
+            if self.attribute_sets and r.random() < 0.2:
+                self.f('use-attribute-sets')
+                ns += ' use-attribute-sets="%s"' % self.use_sets()
             return '<xsl:element name="%s"%s>%s</xsl:element>' % (name, ns, self.body(depth - 1, scope, in_element=True))
         if k < 0.52 and not leaf and self.can_apply:
             self.f('apply-templates')
@@ -235,7 +243,7 @@ class SGen(object):
             self.f('copy')
             us = ''
             if self.attribute_sets and r.random() < 0.2:
-                us = ' use-attribute-sets="%s"' % r.choice(self.attribute_sets)
+                us = ' use-attribute-sets="%s"' % self.use_sets()
             return '<w><xsl:copy%s>%s</xsl:copy></w>' % (us, self.body(depth - 1, scope, in_element=True))
         if k < 0.89:
             self.f('number')
@@ -291,10 +299,12 @@ class SGen(object):
             parts.append('<xsl:key name="%s" match="%s" use="%s"/>' % (kn, r.choice(g.names + ['*']), r.choice(['@x', '@n', '@id', '.', 'name()', '*', '@*'])))
             self.f('key')
         # attribute sets
-        for _ in range(r.choice([0, 0, 1])):
+        for _ in range(r.choice([0, 0, 1, 2, 3])):
             an = self.fresh('as')
-            parts.append('<xsl:attribute-set name="%s"><xsl:attribute name="s1">%s</xsl:attribute><xsl:attribute name="s2"><xsl:value-of select="%s"/></xsl:attribute></xsl:attribute-set>'
-                         % (an, r.choice(['x', 'y']), aesc(self.expr('str', {}, 1))))
+            # a set may build on the sets declared before it (no cycles); the attribute names overlap, so the order of instantiation shows
+            us = ' use-attribute-sets="%s"' % self.use_sets() if self.attribute_sets and r.random() < 0.4 else ''
+            parts.append('<xsl:attribute-set name="%s"%s><xsl:attribute name="%s">%s</xsl:attribute><xsl:attribute name="s2"><xsl:value-of select="%s"/></xsl:attribute></xsl:attribute-set>'
+                         % (an, us, r.choice(['s1', 's1', 's3']), r.choice(['x', 'y']), aesc(self.expr('str', {}, 1))))
             self.attribute_sets.append(an)
             self.f('attribute-set')
         # global variables / params
